@@ -32,7 +32,7 @@ def Collector.extend (s : Collector) (tail : Bytes) : Collector × Res Unit :=
     | .done true bytes consumed =>
       Collector.decodeRest { s with data := s.data ++ bytes, incomplete := none } (tail.drop consumed)
     | .done false _ _ => ({ s with incomplete := none }, .err .utf8)
-    | .panic => (s, .panic .utf8CheckedSub)
+    | .panic => ({ s with incomplete := none }, .panic .utf8CheckedSub)
 
 /-- `StringCollector::into_string` -/
 def Collector.intoString (s : Collector) : Res Bytes :=
